@@ -29,6 +29,8 @@ type Prog struct {
 	ssaPkgs  map[string]*ssa.Package
 	Overlay  map[string][]byte
 	postdoms map[*ssa.Function]*postDom
+
+	ifaceMethodNames map[string]bool
 }
 
 // Load type-checks ./... under repo (non-test files, real build flags) and
@@ -96,6 +98,7 @@ func Load(repo string, overlay map[string][]byte, env []string) (*Prog, error) {
 		p.Funcs = append(p.Funcs, fn)
 	}
 	sort.Slice(p.Funcs, func(i, j int) bool { return FuncName(p.Funcs[i]) < FuncName(p.Funcs[j]) })
+	Current = p
 	return p, nil
 }
 
